@@ -21,6 +21,9 @@ type paLeaser struct {
 	cidN   int
 	lease  *sLease
 	closed bool
+	// foreign: instead of failing, the request after the acquisition finds the lease service initialised for another
+	// cluster (it had no cluster id when the node looked first)
+	foreign bool
 }
 
 func (l *paLeaser) Close() error         { return nil }
@@ -32,7 +35,13 @@ func (l *paLeaser) ClusterID(ctx context.Context) (string, error) {
 	defer l.mu.Unlock()
 	l.cidN++
 	if l.cidN == 2 {
+		if l.foreign {
+			return cidB, nil
+		}
 		return "", errors.New("Unexpected response code: 500 (rpc error: No cluster leader)")
+	}
+	if l.foreign && l.cidN > 2 {
+		return cidB, nil
 	}
 	return "", nil
 }
@@ -62,9 +71,17 @@ func (l *paLeaser) AcquireExisting(ctx context.Context, id string) (litefs.Lease
 // postAcquireFailure: an error of the lease service between the acquisition and the cluster-id step ends the attempt:
 // the lease is given back and the node is not primary.
 func postAcquireFailure(c *common.Ctx, root string) {
-	dir := filepath.Join(root, "post-acquire")
+	postAcquire(c, root, false)
+	postAcquire(c, root, true)
+}
+
+func postAcquire(c *common.Ctx, root string, foreign bool) {
+	dir := filepath.Join(root, fmt.Sprintf("post-acquire-%v", foreign))
 	_ = os.MkdirAll(dir, 0o755)
-	l := &paLeaser{}
+	l := &paLeaser{foreign: foreign}
+	if foreign {
+		_ = os.WriteFile(filepath.Join(dir, "clusterid"), []byte(cidA+"\n"), 0o644) // the node belongs to cluster A
+	}
 	s := litefs.NewStore(dir, true)
 	s.Leaser = l
 	s.Client = &sClient{} // node-b's stream: connects, sends nothing
@@ -74,7 +91,7 @@ func postAcquireFailure(c *common.Ctx, root string) {
 		return
 	}
 	defer func() { _ = s.Close() }()
-	deadline := time.Now().Add(5 * time.Second)
+	deadline := time.Now().Add(2 * time.Second)
 	for time.Now().Before(deadline) {
 		l.mu.Lock()
 		done := l.closed
@@ -88,10 +105,14 @@ func postAcquireFailure(c *common.Ctx, root string) {
 	closed := l.closed
 	l.mu.Unlock()
 	c.Evaluations++
-	c.Distinct("post-acquire-failure")
-	rep := map[string]any{"kind": "post-acquire-failure"}
+	c.Distinct(fmt.Sprintf("post-acquire-failure:foreign=%v", foreign))
+	rep := map[string]any{"kind": "post-acquire-failure", "foreign_cluster": foreign}
 	if !closed {
-		c.Violate("C08:post-acquire:lease-kept", "the cluster-id request after the acquisition failed and the lease was not given back within 5 s", rep)
+		if foreign {
+			c.Violate("C08:post-acquire:foreign-cluster", fmt.Sprintf("the node's stored cluster id is %s; the lease service had none when the node looked, and was initialised for %s by the time the node had acquired the lease: the node keeps the lease (primary=%v) for a cluster that is not its own", cidA, cidB, s.IsPrimary()), rep)
+		} else {
+			c.Violate("C08:post-acquire:lease-kept", "the cluster-id request after the acquisition failed and the lease was not given back within 2 s", rep)
+		}
 		return
 	}
 	time.Sleep(150 * time.Millisecond)
